@@ -16,6 +16,7 @@ import (
 	"com.tuntun.rangers/node/src/zzverif/simdisk"
 	"com.tuntun.rangers/node/src/zzverif/simmap"
 	"com.tuntun.rangers/node/src/zzverif/simrt"
+	"com.tuntun.rangers/node/src/zzverif/simsched"
 )
 
 // C01 — block execution is replica-deterministic.
@@ -95,6 +96,8 @@ func c01GenTx(r *simrt.Rand, i int, nonces map[int]uint64) node.TxSpec {
 				} else {
 					a = node.Account(r.Intn(8))
 				}
+			case 3:
+				a = fmt.Sprintf("#%d", r.Intn(5)) // credit a contract (possibly one that self-destructs in this block)
 			default:
 				a = node.Account(r.Intn(8))
 			}
@@ -130,7 +133,7 @@ func c01GenTx(r *simrt.Rand, i int, nonces map[int]uint64) node.TxSpec {
 		s.Gas = []uint64{0, 60000000, 1700000, 6000000}[r.Intn(4)]
 	default:
 		s.K = "call"
-		s.To = fmt.Sprintf("#%d", r.Intn(3))
+		s.To = fmt.Sprintf("#%d", r.Intn(5))
 		s.Value = []string{"0", "1", "0.25", "100000000000"}[r.Intn(4)]
 		s.Gas = []uint64{0, 700000, 6000000}[r.Intn(3)]
 	}
@@ -155,6 +158,8 @@ func (c01) Gen(seed uint64, tier string) json.RawMessage {
 		TimeMs: int64(r.Range(1000, 9000000)), ZoneH: r.Range(-11, 12)}
 	if r.Chance(0.3) {
 		p.Forks = string(node.ForksDevLike)
+	} else if r.Chance(0.3) {
+		p.Forks = string(node.ForksLatest) // Proposal020: the proposer executes in a goroutine (a scheduler task here)
 	}
 	n := r.Range(1, 6)
 	if r.Chance(0.3) {
@@ -203,12 +208,12 @@ func c01Setup(p *c01Plan) (*simdisk.Disk, *types.BlockHeader, []string) {
 		txs = append(txs, node.TransferTx(node.Funded[0], 0, map[string]string{node.Account(i): "6000"}, fmt.Sprintf("fund%d", i)))
 	}
 	var creates []*types.Transaction
-	for k, prog := range []int{0, 2, 6} {
+	for k, prog := range []int{0, 2, 6, 4, 5} {
 		tx := node.TxSpec{K: "create", From: 1, Nonce: uint64(k), Prog: prog, Salt: fmt.Sprintf("setupc%d", k)}.Build()
 		creates = append(creates, tx)
 		txs = append(txs, tx)
 	}
-	must(n.CastBlock(node.BlockSpec{QN: 1, PV: 1, TimeMs: 1000, Txs: txs}))
+	must(c01Cast(n, node.BlockSpec{QN: 1, PV: 1, TimeMs: 1000, Txs: txs}, 1))
 	var contracts []string
 	for _, tx := range creates {
 		ex := n.Pool.GetExecuted(tx.Hash)
@@ -229,8 +234,24 @@ func c01Setup(p *c01Plan) (*simdisk.Disk, *types.BlockHeader, []string) {
 		}
 		txs2 = append(txs2, node.TxSpec{K: "apply", From: 4 + m, Miner: m, MType: byte(m), Stake: st, Salt: fmt.Sprintf("setupm%d", m)}.Build())
 	}
-	must(n.CastBlock(node.BlockSpec{QN: 1, PV: 1, TimeMs: 2000, Txs: txs2}))
+	must(c01Cast(n, node.BlockSpec{QN: 1, PV: 1, TimeMs: 2000, Txs: txs2}, 2))
 	return disk.Clone(), n.Chain.TopBlock(), contracts
+}
+
+// c01Cast casts through the exported API. With asynchronous casting active the call runs
+// as a scheduler task, so the proposer's execution goroutine is a task whose interleaving
+// with the verifying call is drawn from the seed, and the call returns when both are done.
+func c01Cast(n *node.Node, spec node.BlockSpec, seed uint64) (*types.Block, error) {
+	if !common.IsProposal020() {
+		return n.CastBlock(spec)
+	}
+	var b *types.Block
+	var err error
+	res := simsched.Run(simsched.Options{Seed: seed, Policy: "random", MaxPreempt: -1, MaxSteps: 2000000}, []string{"proposer"}, []func(){func() { b, err = n.CastBlock(spec) }})
+	if res.Panic != nil {
+		return nil, fmt.Errorf("casting panicked: %v", res.Panic)
+	}
+	return b, err
 }
 
 type c01Outcome struct {
@@ -370,6 +391,14 @@ func (c01) Exec(raw json.RawMessage, st *simrt.Stats, log *simrt.Log) *simrt.Vio
 			fmt.Sscanf(s.To, "#%d", &k)
 			s.To = contracts[k%len(contracts)]
 		}
+		for ti, tg := range s.Targets {
+			if strings.HasPrefix(tg.A, "#") {
+				var k int
+				fmt.Sscanf(tg.A, "#%d", &k)
+				s.Targets = append([]node.Target{}, s.Targets...)
+				s.Targets[ti].A = contracts[k%len(contracts)]
+			}
+		}
 		if len(s.Targets) > 1 {
 			multi = true
 		}
@@ -430,7 +459,7 @@ func (c01) Exec(raw json.RawMessage, st *simrt.Stats, log *simrt.Log) *simrt.Vio
 		c := *t
 		cp = append(cp, &c)
 	}
-	blk, err := prop.CastBlock(node.BlockSpec{QN: p.QN, PV: p.PV, Castor: p.Castor, TimeMs: p.TimeMs, Txs: cp})
+	blk, err := c01Cast(prop, node.BlockSpec{QN: p.QN, PV: p.PV, Castor: p.Castor, TimeMs: p.TimeMs, Txs: cp}, p.Seed)
 	if err != nil {
 		return simrt.Violationf("C01", "proposer-cannot-cast", "cast", len(p.Replicas), "%v", err)
 	}
